@@ -31,7 +31,7 @@ THEOREMS = [
     "PyYetiVerif.C05." + n
     for n in (
         "count_total rows_total cycle_values cycle_values_abs offsets_variant_agrees "
-        "loop_exit refines_astm negate shift scale"
+        "loop_exit refines_astm negate shift scale largest_range_counted largest_range_needs_reversals"
     ).split()
 ]
 TRUSTED = [
@@ -55,17 +55,17 @@ MANIFEST = {
     "(start < stop < L), the offsets-free variant computes the same table, the loop exits exactly where the code's "
     "tests say (termination by well-founded recursion), the code's `j == 2` test equals ASTM E1049's 'Y contains the "
     "starting point S' (refinement of an explicit-S transcription of the standard), and negate/shift/scale "
-    "equivariance over any ordered field. The model is tied to py_rain.py, to c_rain.c compiled from the working tree "
+    "equivariance over any ordered field, and that for strictly alternating input the overall range is one of the counted ranges. The model is tied to py_rain.py, to c_rain.c compiled from the working tree "
     "with and without USE_FASTER_RAINFLOW_ROUTINE and to the cyclecount wrapper by exact correspondence "
     "(exhaustive small alphabets + seeded random integer/dyadic sequences). Right level: the algorithm is a pure "
     "stack machine on exactly comparable values, so the whole property is provable.",
     "level_note": "Trusted: Lean kernel; propext, Classical.choice, Quot.sound; the Python harness; gcc. Theorems are "
     "over exact arithmetic: for doubles whose differences round, C and Python perform identical IEEE operations but "
-    "agreement with the real-number ASTM procedure is not claimed. 'largest range is always counted' is checked by "
-    "the oracle on strictly alternating inputs, not proved. numba variant = same source text, not executed (numba absent).",
+    "agreement with the real-number ASTM procedure is not claimed. 'largest range is always counted' is proved for true reversal sequences "
+    "(strict alternation; `[0,1,2]` shows the hypothesis is necessary). numba variant = same source text, not executed (numba absent).",
     "technique": "Lean 4 proof (induction over the stack machine, refinement to an ASTM spec) + exact differential correspondence with py_rain and gcc-built c_rain",
 }
-PARTIAL = "missing (stretch): largest_range_counted for strictly alternating input is checked by the oracle only, not proved"
+PARTIAL = ""
 
 
 def _build_c(repo):
